@@ -4,7 +4,7 @@ import itertools
 import bibtexparser
 from bibtexparser.writer import BibtexFormat
 
-from .. import dialect
+from .. import bigdocs, dialect
 from ..canon import canon, content
 from ..engine import chunks
 from . import c02
@@ -107,7 +107,9 @@ def shards(tier):
     n = len(docs_for(tier))
     k = 64 if tier == "quick" else 256
     step = (n + k - 1) // k
-    return [("docs", a, min(n, a + step)) for a in range(0, n, step)]
+    out = [("docs", a, min(n, a + step)) for a in range(0, n, step)]
+    out += [("big", m, v) for m in (bigdocs.SIZES_QUICK if tier == "quick" else bigdocs.SIZES_THOROUGH) for v in (0, 1)]
+    return out
 
 
 def check_doc(text, exp, fspecs, acc):
@@ -163,7 +165,15 @@ def check_doc(text, exp, fspecs, acc):
             )
 
 
+BIG_FORMATS = [("\t", 0, False, "\n\n"), ("", "auto", True, ""), ("  ", 12, False, "\n"), (" ", "auto", False, " ")]
+
+
 def run_shard(shard, tier, acc):
+    if shard[0] == "big":
+        text, exp = bigdocs.document(shard[1], shard[2])
+        acc.count("big_documents")
+        check_doc(text, exp, BIG_FORMATS, acc)
+        return
     _, a, b = shard
     fs = formats(tier)
     for text, exp in docs_for(tier)[a:b]:
